@@ -61,10 +61,21 @@ func c04Mutants(rng *rand.Rand, p cashu.Proof, out client.Output, sig cashu.Blin
 			add("id-other-own-keyset", q)
 		}
 	}
-	for cls, id := range map[string]string{"id-unknown": "00" + client.RandHex(rng, 7), "id-empty": "", "id-nonhex": "zz" + p.Id[2:], "id-truncated": p.Id[:14], "id-upper": strings.ToUpper(p.Id[:2]) + "FF" + p.Id[4:]} {
+	idMutants := [][2]string{{"id-unknown", "00" + client.RandHex(rng, 7)}, {"id-empty", ""}, {"id-nonhex", "zz" + p.Id[2:]}, {"id-truncated", p.Id[:14]}, {"id-upper", strings.ToUpper(p.Id[:2]) + "FF" + p.Id[4:]}}
+	// the same hex digits in another letter case are a different id (ids are compared as strings)
+	if up := strings.ToUpper(p.Id); up != p.Id {
+		idMutants = append(idMutants, [2]string{"id-uppercased", up})
+		for i, ch := range p.Id {
+			if ch >= 'a' && ch <= 'f' {
+				idMutants = append(idMutants, [2]string{"id-one-letter-uppercased", p.Id[:i] + strings.ToUpper(p.Id[i:i+1]) + p.Id[i+1:]})
+				break
+			}
+		}
+	}
+	for _, m := range idMutants {
 		q := p
-		q.Id = id
-		add(cls, q)
+		q.Id = m[1]
+		add(m[0], q)
 	}
 	// C: single-bit flips
 	cb, _ := hex.DecodeString(p.C)
@@ -251,22 +262,58 @@ func runC04(r *core.Run) {
 	}
 	r.Count("valid_proofs_minted", int64(len(coins)))
 
-	// 513-byte secrets: signed honestly (the mint signs blind), must be refused on spend
+	// secrets longer than 512 bytes: signed honestly (the mint signs blind), must be refused on
+	// spend however the bytes are made up; 512 bytes of multi-byte characters must be accepted
 	act := env.Active()
-	for i := 0; i < 3; i++ {
-		secret := strings.Repeat("t", 513-32) + client.RandHex(rng, 16)
-		o := client.NewOutput(rng, act.Id, 2, secret)
-		ps, err := env.FundOutputs([]client.Output{o})
-		if err != nil {
-			r.Violate("setup", "fund 513: "+err.Error(), "setup", nil)
-			return
-		}
-		outs := client.Outputs(rng, act.Id, []uint64{2})
-		_, err = env.Swap(ps, client.BMs(outs))
-		sig := "oversize-secret-513/swap"
-		r.Eval(sig, true)
-		if err == nil {
-			r.Violate("accepted:secret-513-bytes:swap", "a proof with a 513-byte secret was accepted by Swap", sig, ps)
+	type longSecret struct {
+		name   string
+		secret string
+		ok     bool
+	}
+	uniq := func() string { return client.RandHex(rng, 16) } // 32 ASCII bytes
+	longs := []longSecret{
+		{"513-ascii", strings.Repeat("t", 513-32) + uniq(), false},
+		{"2000-ascii", strings.Repeat("t", 2000-32) + uniq(), false},
+		{"600-bytes-2-byte-runes", uniq() + strings.Repeat("é", 284), false},
+		{"632-bytes-3-byte-runes", uniq() + strings.Repeat("€", 200), false},
+		{"516-bytes-4-byte-runes", uniq() + strings.Repeat("😀", 121), false},
+		{"514-bytes-one-rune-over", uniq() + strings.Repeat("a", 480) + "é", false},
+		{"513-bytes-invalid-utf8", uniq() + strings.Repeat("\xff", 481), false},
+		{"512-bytes-2-byte-runes", uniq() + strings.Repeat("é", 240), true},
+		{"512-bytes-4-byte-runes", uniq() + strings.Repeat("😀", 120), true},
+	}
+	for _, ls := range longs {
+		for _, via := range []string{"swap", "melt"} {
+			secret := ls.secret[:16] + client.RandHex(rng, 8) + ls.secret[32:] // distinct per use, same length
+			o := client.NewOutput(rng, act.Id, 4, secret)
+			ps, err := env.FundOutputs([]client.Output{o})
+			if err != nil {
+				r.Violate("setup", "fund "+ls.name+": "+err.Error(), "setup", nil)
+				return
+			}
+			sig := "long-secret/" + ls.name + "/" + via
+			if !r.Want(sig) {
+				continue
+			}
+			if via == "swap" {
+				_, err = env.Swap(ps, client.BMs(client.Outputs(rng, act.Id, []uint64{4})))
+			} else {
+				inv := world.NewExternalInvoice(2000)
+				q, qerr := env.RequestMeltQuote(inv.Bolt11, 0)
+				if qerr != nil {
+					r.Inconclusive("melt quote: " + qerr.Error())
+					continue
+				}
+				_, err = env.Melt(q.Id, ps)
+			}
+			r.Eval(sig, true)
+			if menv.IsPanic(err) {
+				r.Violate("panic:long-secret:"+ls.name+":"+via, err.Error(), sig, nil)
+			} else if !ls.ok && err == nil {
+				r.Violate("accepted:secret-over-512-bytes:"+ls.name+":"+via, fmt.Sprintf("a proof with a %d-byte secret was accepted by %s", len(secret), via), sig, map[string]any{"secret_len": len(secret)})
+			} else if ls.ok && err != nil {
+				r.Violate("rejected:honest-proof-512-byte-secret:"+ls.name+":"+via, fmt.Sprintf("an honest proof with a %d-byte secret was refused by %s: %v", len(secret), via, err), sig, nil)
+			}
 		}
 	}
 
